@@ -9,14 +9,21 @@ def run():
     ctx = Ctx("C05")
     quick = ctx.quick()
     ctx.assumptions += [
-        "outages are injected by the broker closing its side of the in-memory pipe; detection by keep-alive 100 ms / 100 ms or by the next request",
+        "outages are injected by the broker closing its side of the in-memory pipe, or by the client-side transport wrapper reporting write "
+        "errors while reads are still delivered (half-broken link); detection by keep-alive 100 ms / 100 ms or by the next request",
         "fast redial = in-memory dial without delay (faster than any network); slow redial = 40 ms",
         "a request the broker received before the cut but did not answer must be re-sent by the client after recovery (its response was lost)",
     ]
     # L1: the repaired design satisfies every invariant; the as-coded design must violate exactly the known ones (sanity of the model)
-    cfg = C.write_cfg("ConnLifecycle_c05.cfg", faults=2, fixed=True, close=False, callers=("P1",) if quick else ("P1", "P2"))
+    cfg = C.write_cfg("ConnLifecycle_c05.cfg", faults=2, fixed=True, close=False, callers=("P1",) if quick else ("P1", "P2"), half=True)
     ctx.l1("ConnLifecycle", cfg, timeout=1500)
     os.remove(os.path.join(SPEC, cfg))
+    # sensitivity: a stream that records the reconnect epoch only after its resume exchange misses an outage decided meanwhile
+    cfg = C.write_cfg("ConnLifecycle_c05_epochlate.cfg", faults=2, fixed=True, close=False, callers=("P1",), half=True, epoch_before_resume=False)
+    r = ctx.l1("ConnLifecycle", cfg, timeout=900, must_hold=False)
+    os.remove(os.path.join(SPEC, cfg))
+    if r.violated != "NoStreamDetached":
+        raise Inconclusive("variant EpochBeforeResume = FALSE should violate NoStreamDetached, TLC says %s" % (r.violated or r.error or "nothing"))
     if not quick:
         # sanity of the model: the as-coded variant (pinned commit) must violate the invariants whose defects were repaired in /repo
         cfg = C.write_cfg("ConnLifecycle_c05_coded.cfg", faults=1, fixed=False, close=False, callers=("P1", "P2"))
@@ -25,12 +32,12 @@ def run():
         if r.ok:
             raise Inconclusive("as-coded ConnLifecycle model unexpectedly satisfies every invariant: the model lost its discriminating power")
     scs = C.enumerated("C05", quick)
-    gcfg = C.write_cfg("ConnLifecycle_c05_gen.cfg", faults=2, fixed=True, close=False, view=False, gen=True)
+    gcfg = C.write_cfg("ConnLifecycle_c05_gen.cfg", faults=2, fixed=True, close=False, view=False, gen=True, half=True)
     r = ctx.tlc("ConnLifecycle", gcfg, workers=1, simulate="num=%d" % (300 if quick else 3000), depth=120, timeout=600)
     os.remove(os.path.join(SPEC, gcfg))
     if r.violated or r.error:
         raise Inconclusive("simulation failed: %s" % (r.violated or r.error))
-    scripts = [s for s in U.scripts_of(r) if any(op["a"] == "cut" for op in s)]
+    scripts = [s for s in U.scripts_of(r) if any(op["a"] in ("cut", "wfail") for op in s)]
     for k, sc in enumerate(pick(scripts, 30 if quick else 300, ctx.seed)):
         for delay in (0, 40):
             scs.append(C.from_model_script("C05/model/d%d/%d" % (delay, k), sc, dial_delay=delay))
@@ -38,7 +45,7 @@ def run():
         core = [x for x in scs if "/S1+S2/ok/" in x["id"] or "/S2/ok/held" in x["id"] or "/S1/ok/held" in x["id"]]
         rest = [x for x in scs if x not in core]
         scs = core + pick(rest, 100 - len(core), ctx.seed)
-    scs = C.gated("C05") + scs
+    scs = C.gated("C05") + C.resume_overlap("C05") + scs
     trace = ctx.run_scenarios(scs, "c05", par=8)
     verdicts, _ = ctx.validate(trace, "MonC05")
     ctx.judge(scs, trace, verdicts)
